@@ -35,6 +35,7 @@ mod state;
 #[cfg(feature = "verif-hooks")]
 pub mod verif {
     pub use super::{
+        gossip::verif::set_joins_disabled as set_gossip_joins_disabled,
         live::{
             verif::{set_dial_log, take_dials, Dial},
             LiveActor, SyncReport, ToLiveActor,
